@@ -1,4 +1,5 @@
 import CoclsModel.ChainProofs
+import CoclsModel.ChainPtrProofs
 /-!
 # C02 — no lost, early or duplicate wake-up of a future's waiters
 
@@ -306,3 +307,231 @@ example : (run c02Cfg (init c02Cfg) (c02Sched.take 8)).slot = Slot.chain [3, 2, 
 example : (run c02Cfg (init c02Cfg) (c02Sched.take 11)).pc 0 = Pc.rRun false [Act.wake 3, Act.store 2, Act.wake 1] := by decide
 
 end Cocls.Chain
+
+/-!
+# C02, pointer level — the list abstraction of the awaiter chain is a theorem
+
+Model: `ChainPtr.lean` — the same agents, steps and events as `Chain.lean`, but the chain is what `awaiter.h` has: the atomic slot
+(`head`), one intrusive `_next` field per awaiter node (`next`), the walker's local `chain` pointer and the handles collected in its
+suspend point; ghost `live` (the node has not died: a blocking waiter's stack node dies when its thread passes `flag.wait`, a
+coroutine's / callback's node when it is resumed / invoked), ghost `log` (every plain access to a node field with snapshots of the
+node's liveness and publication).  `abs : ChainPtr.State → Chain.State` reads the lists off the pointers.  All statements quantify over
+every configuration and every schedule (`PReachable c s` = `∃ sched, s = prun c (init c) sched`).
+-/
+namespace Cocls.ChainPtr
+open Cocls.Chain (Outcome RK WK Kind Seen Obs Ev Cfg upd wkOf Slot Act c02Cfg c02Sched)
+
+/-! ## the refinement -/
+
+/-- **The pointer-level model refines the list-level model** (whole runs).  For every configuration and every schedule, the
+list-level state denoted by the pointer-level run — the chain read off the `_next` fields, the walker's remaining work read off
+its local pointer — *is* the list-level run, and the two runs emit the same trace of events.  Every list-level theorem of
+C01 / C02 therefore holds of the pointer-level run. -/
+theorem c02_ptr_refines_list (c : Cfg) (sched : List Nat) :
+    abs c (prun c (init c) sched) = Chain.run c (Chain.init c) sched
+      ∧ (prunEv c (init c) sched).2 = (Chain.runEv c (Chain.init c) sched).2 :=
+  ⟨sim_run c sched, sim_runEv c sched⟩
+
+/-- **One-step refinement.**  From every reachable pointer-level state, for every agent `t`: the abstraction commutes with the
+step, the step emits the same events as the list-level step, and `t` is enabled at one level iff it is at the other. -/
+theorem c02_ptr_step_refines (c : Cfg) (s : State) (hr : PReachable c s) (t : Nat) :
+    abs c (pstep c s t).1 = (Chain.astep c (abs c s) t).1
+      ∧ (pstep c s t).2 = (Chain.astep c (abs c s) t).2
+      ∧ enabled c s t = Chain.enabled c (abs c s) t :=
+  ⟨(sim_step c s hr.inv t).1, (sim_step c s hr.inv t).2, enabled_eq c s t⟩
+
+/-- the witness run of the list-level theorems (`c02Cfg`: a value resolver, a coroutine, a blocking thread, a callback, a
+`has_value()` awaiter, the destructor; `c02Sched`: three subscriptions with two CAS retries, a late waiter that finds the
+future ready, the walk) at pointer level: after the three pushes the slot heads `w3 → w2 → w1 → null`, which `abs` reads as the
+list `[3, 2, 1]`; the exchange hands the head to the walker; 21 plain accesses to node fields are logged -/
+example : (prun c02Cfg (init c02Cfg) (c02Sched.take 8)).head = Seen.node 3
+    ∧ (prun c02Cfg (init c02Cfg) (c02Sched.take 8)).next 3 = Seen.node 2
+    ∧ (prun c02Cfg (init c02Cfg) (c02Sched.take 8)).next 2 = Seen.node 1
+    ∧ (prun c02Cfg (init c02Cfg) (c02Sched.take 8)).next 1 = Seen.null
+    ∧ (abs c02Cfg (prun c02Cfg (init c02Cfg) (c02Sched.take 8))).slot = Slot.chain [3, 2, 1]
+    ∧ (prun c02Cfg (init c02Cfg) (c02Sched.take 11)).pc 0 = Pc.rWalk false (Seen.node 3) [] none
+    ∧ (prun c02Cfg (init c02Cfg) (c02Sched.take 11)).head = Seen.ready
+    ∧ (prun c02Cfg (init c02Cfg) c02Sched).log.length = 21 := by decide
+/-- a failed CAS stored the observed head into the subscriber's own `_next`: the expected value of the retry -/
+example : (prun c02Cfg (init c02Cfg) (c02Sched.take 4)).pc 2 = Pc.wCas false
+    ∧ (prun c02Cfg (init c02Cfg) (c02Sched.take 4)).next 2 = Seen.node 1
+    ∧ (abs c02Cfg (prun c02Cfg (init c02Cfg) (c02Sched.take 4))).pc 2 = Chain.Pc.wCas (Seen.node 1) := by decide
+/-- the walker in the middle of the chain: callback 3 served, the blocking waiter 2 released by the `flag.store` that ended the
+step, local pointer at `w1`, all visited `_next` fields cleared -/
+example : (prun c02Cfg (init c02Cfg) (c02Sched.take 13)).pc 0 = Pc.rWalk false (Seen.node 1) [] none
+    ∧ (prun c02Cfg (init c02Cfg) (c02Sched.take 13)).next 3 = Seen.null
+    ∧ (prun c02Cfg (init c02Cfg) (c02Sched.take 13)).next 2 = Seen.null
+    ∧ (prun c02Cfg (init c02Cfg) (c02Sched.take 13)).live 3 = false
+    ∧ (prun c02Cfg (init c02Cfg) (c02Sched.take 13)).live 2 = true
+    ∧ (prun c02Cfg (init c02Cfg) (c02Sched.take 13)).live 1 = true := by decide
+
+/-- a resolution without a value (`drop`): `value()` inside the callback and inside the resumed coroutine performs the `pending()`
+load — a step boundary in the middle of `resume()`; the late refused waiter 3 clears its `_next` in the segment after the CAS -/
+def c02PtrCfgDrop : Cfg :=
+  { n := 5
+    kind := fun i => match i with
+      | 0 => Kind.res RK.drop
+      | 1 => Kind.wait WK.cb
+      | 2 => Kind.wait WK.coro
+      | 3 => Kind.wait WK.coro
+      | _ => Kind.dtor }
+def c02PtrSchedDrop : List Nat := [1, 1, 2, 2, 2, 3, 0, 0, 3, 0, 3, 0, 0, 3, 1, 2, 4, 4]
+
+
+example : (prun c02PtrCfgDrop (init c02PtrCfgDrop) (c02PtrSchedDrop.take 10)).pc 0 = Pc.rWalk false Seen.null [2] (some (1, Seen.ready))
+    ∧ (prun c02PtrCfgDrop (init c02PtrCfgDrop) (c02PtrSchedDrop.take 10)).pc 3 = Pc.wRead true
+    ∧ (prun c02PtrCfgDrop (init c02PtrCfgDrop) (c02PtrSchedDrop.take 10)).next 3 = Seen.ready
+    ∧ (prun c02PtrCfgDrop (init c02PtrCfgDrop) (c02PtrSchedDrop.take 11)).next 3 = Seen.null
+    ∧ (abs c02PtrCfgDrop (prun c02PtrCfgDrop (init c02PtrCfgDrop) (c02PtrSchedDrop.take 10))).pc 0
+        = Chain.Pc.rRun false [Act.obsAfter 1 Seen.ready, Act.wake 2]
+    ∧ (prun c02PtrCfgDrop (init c02PtrCfgDrop) (c02PtrSchedDrop.take 12)).pc 0 = Pc.rWalk false Seen.null [] (some (2, Seen.ready))
+    ∧ (∀ t, t < 5 → (prun c02PtrCfgDrop (init c02PtrCfgDrop) c02PtrSchedDrop).pc t = Pc.done)
+    ∧ (prunEv c02PtrCfgDrop (init c02PtrCfgDrop) c02PtrSchedDrop).2
+        = (Chain.runEv c02PtrCfgDrop (Chain.init c02PtrCfgDrop) c02PtrSchedDrop).2 := by
+  decide
+
+/-! ## node-lifetime safety -/
+
+/-- **The walk is safe: no access to a dead node, ever.**  In every reachable state, every plain access to a field of an awaiter
+node that has been performed (`log`), and every access that the next step of *any* agent performs, touched a node that was
+live at the moment of the access — where a blocking waiter's stack node dies when its thread passes `flag.wait`, and a
+coroutine's / callback's node dies when it is resumed / invoked.  In particular the walker of `resume_chain_lk` reads
+`y->_next`, clears it and reads the resumption target *before* `y->resume()`, and never touches `y` afterwards. -/
+theorem c02_walk_safe (c : Cfg) (s : State) (hr : PReachable c s) :
+    (∀ a, a ∈ s.log → a.live = true) ∧ (∀ t a, a ∈ (pstep c s t).1.log → a.live = true) := by
+  refine ⟨fun a ha => (log_ok hr a ha).live, ?_⟩
+  intro t a ha
+  rcases step_access_ok c s hr.inv t a ha with h | h
+  · exact (log_ok hr a h).live
+  · exact h.live
+
+/-- what the walker still holds is intact: while the walker stands at local pointer `cur`, the nodes reachable from `cur` form a
+chain `l` without repetition, each node of it belongs to a subscribed waiter that has not been released and is live, and the
+walker itself is none of them, nor is any of them among the handles already collected -/
+theorem c02_walk_nodes_live (c : Cfg) (s : State) (hr : PReachable c s) (t : Nat) (dt : Bool) (cur : Ptr) (ret : List Nat)
+    (pend : Option (Nat × Seen)) (hpc : s.pc t = Pc.rWalk dt cur ret pend) :
+    s.head = Seen.ready ∧ ∃ l, ChainIs s.next cur l ∧ l.Nodup ∧
+      ∀ x, x ∈ l → s.subscribed x = true ∧ s.woken x = 0 ∧ s.live x = true ∧ x ≠ t ∧ x ∉ ret := by
+  have h := hr.inv
+  obtain ⟨hh, _, hc, hcnt⟩ := h.walk_facts hpc
+  obtain ⟨_, hn⟩ := h.walk_nodes hpc
+  refine ⟨hh, _, hc, chainIs_nodup hc, ?_⟩
+  intro x hx
+  obtain ⟨h1, h2, h3⟩ := hn x hx
+  refine ⟨h1, h2, h.str.alive x h2, h3, ?_⟩
+  intro hr'
+  have := hcnt x
+  have p1 : 0 < (follow s.next c.n cur).count x := List.count_pos_iff.2 hx
+  have p2 : 0 < ret.count x := List.count_pos_iff.2 hr'
+  split at this <;> omega
+
+example : (prun c02Cfg (init c02Cfg) (c02Sched.take 13)).pc 0 = Pc.rWalk false (Seen.node 1) [] none
+    ∧ ChainIs (prun c02Cfg (init c02Cfg) (c02Sched.take 13)).next (Seen.node 1) [1] :=
+  ⟨by decide, ChainIs.cons (by rw [show (prun c02Cfg (init c02Cfg) (c02Sched.take 13)).next 1 = Seen.null by decide]; exact ChainIs.nil)⟩
+
+/-- **No touch after publish.**  In every reachable state, every logged access obeys the ownership discipline: a waiter accesses
+its own node only while the node is unpublished (never after its successful CAS — from then on another thread may resume it
+and the node may be gone); any other agent that accesses a node is not a waiter (it is the walker, after the exchange), and the
+node it accesses is a published one.  Hence owner and walker never access the same node concurrently. -/
+theorem c02_no_touch_after_publish (c : Cfg) (s : State) (hr : PReachable c s) (a : Access) (ha : a ∈ s.log) :
+    (a.agent = a.node → a.pub = false) ∧
+    (a.agent ≠ a.node → a.pub = true ∧ Chain.isW c a.agent = false ∧ Chain.isW c a.node = true) :=
+  ⟨(log_ok hr a ha).own, (log_ok hr a ha).other⟩
+
+/-- the same for the accesses of the next step of any agent -/
+theorem c02_no_touch_after_publish_step (c : Cfg) (s : State) (hr : PReachable c s) (t : Nat) (a : Access)
+    (ha : a ∈ (pstep c s t).1.log) :
+    (a.agent = a.node → a.pub = false) ∧
+    (a.agent ≠ a.node → a.pub = true ∧ Chain.isW c a.agent = false ∧ Chain.isW c a.node = true) := by
+  rcases step_access_ok c s hr.inv t a ha with h | h
+  · exact c02_no_touch_after_publish c s hr a h
+  · exact ⟨h.own, h.other⟩
+
+/-- the witness run has accesses of both kinds (12 by subscribers to their own unpublished nodes, 9 by the walker to published
+nodes), all to live nodes; and nodes do die in it (the callback's when invoked, the coroutine's when resumed, the blocking
+waiter's when it passes the wait) -/
+example : ((prun c02Cfg (init c02Cfg) c02Sched).log.filter (fun a => a.agent == a.node)).length = 12
+    ∧ ((prun c02Cfg (init c02Cfg) c02Sched).log.filter (fun a => a.agent != a.node)).length = 9
+    ∧ (prun c02Cfg (init c02Cfg) c02Sched).log.all (fun a => a.live && (a.pub == (a.agent != a.node))) = true
+    ∧ (List.range 6).map (prun c02Cfg (init c02Cfg) c02Sched).live = [true, false, false, false, true, true] := by decide
+
+/-! ### as-is negative witness: the classic broken walker
+
+`auto y = chain; ret << y->resume(); chain = y->_next; y->_next = nullptr;` (`AsIs.pstepAsIs`: the same model with this loop
+body).  A resolver, a blocking waiter (1) and a callback (2): the callback is invoked and its node read afterwards within one
+step; the blocking waiter is released by the `flag.store`, passes its wait and returns, and the walker's next step reads and
+writes `_next` of its dead stack node. -/
+
+def c02AsIsCfg : Cfg :=
+  { n := 3
+    kind := fun i => match i with
+      | 0 => Kind.res (RK.value 7)
+      | 1 => Kind.wait WK.sync
+      | _ => Kind.wait WK.cb }
+def c02AsIsSched : List Nat := [1, 1, 1, 2, 2, 2, 0, 0, 0, 1, 0, 1, 2]
+
+/-- **The safety theorem is not vacuous**: on `c02AsIsSched` the resume-before-read walker accesses dead nodes — the `_next` of
+the callback's node after the callback ran, and the `_next` of the blocking waiter's stack node after that thread passed its
+wait (read and write) -/
+theorem c02_walk_asis_witness :
+    (AsIs.prunAsIs c02AsIsCfg ⟨init c02AsIsCfg, none⟩ c02AsIsSched).s.log.any
+        (fun a => a.agent == 0 && a.node == 2 && a.field == Field.next && !a.live) = true
+    ∧ (AsIs.prunAsIs c02AsIsCfg ⟨init c02AsIsCfg, none⟩ c02AsIsSched).s.log.any
+        (fun a => a.agent == 0 && a.node == 1 && a.field == Field.next && a.write && !a.live) = true
+    ∧ (AsIs.prunAsIs c02AsIsCfg ⟨init c02AsIsCfg, none⟩ c02AsIsSched).s.pc 0 = Pc.done := by decide
+
+/-- the same configuration and schedule with the walker as coded: every access is to a live node -/
+example : (prun c02AsIsCfg (init c02AsIsCfg) c02AsIsSched).log.all (fun a => a.live) = true
+    ∧ (prun c02AsIsCfg (init c02AsIsCfg) c02AsIsSched).log.length = 13
+    ∧ (prun c02AsIsCfg (init c02AsIsCfg) c02AsIsSched).pc 0 = Pc.done := by decide
+
+/-! ## transport of the list-level theorems -/
+
+/-- **The list-level theorems hold of the pointer-level run** (transport through `abs`; three of them spelled out).  In every
+reachable pointer-level state every waiter has been released at most once and only after its CAS succeeded, the result has been
+read at most once per waiter (`c02_woken_at_most_once`, `c02_observed_at_most_once`); and at quiescence — with a resolving party
+in the configuration — every waiter agent has had its result read exactly once, every published waiter was released exactly
+once (`c02_exactly_once_quiescent`). -/
+theorem c02_ptr_properties_transfer (c : Cfg) (s : State) (hr : PReachable c s) (w : Nat) :
+    s.woken w ≤ 1 ∧ (1 ≤ s.woken w → s.subscribed w = true) ∧ s.observed w ≤ 1 ∧
+    (Chain.WF c → (∀ t, t < c.n → s.pc t = Pc.done) → Chain.isW c w = true →
+      s.observed w = 1 ∧ s.woken w = if s.subscribed w = true then 1 else 0) := by
+  have hl := hr.abs
+  obtain ⟨h1, h2⟩ := Chain.c02_woken_at_most_once c (abs c s) hl w
+  refine ⟨h1, h2, (Chain.c02_observed_at_most_once c (abs c s) hl w).1, ?_⟩
+  intro hwf hq hw
+  have hq' : Chain.Quiescent c (abs c s) := by
+    intro t ht
+    rw [abs_pc, hq t ht]; rfl
+  exact Chain.c02_exactly_once_quiescent c (abs c s) hl hwf hq' w hw
+
+/-- **Shape of the pointer chain before the exchange** (`c02_chain_shape` transported, plus what only the pointer level can say):
+while the slot is not `ready`, following `_next` from the head reaches null after visiting a list `l` without repetition; its
+nodes are exactly the published waiters; each of them is unreleased, live and parked; and nobody walks. -/
+theorem c02_ptr_chain_shape (c : Cfg) (s : State) (hr : PReachable c s) (hh : s.head ≠ Seen.ready) :
+    ∃ l, ChainIs s.next s.head l ∧ l.Nodup ∧ (∀ x, x ∈ l ↔ s.subscribed x = true) ∧
+      (∀ x, x ∈ l → Chain.isW c x = true ∧ s.woken x = 0 ∧ s.live x = true ∧
+        (if wkOf c x = WK.sync then s.pc x = Pc.wWait ∨ s.pc x = Pc.wBlocked else s.pc x = Pc.wFinParked ∨ s.pc x = Pc.done)) ∧
+      ∀ t dt cur ret pend, s.pc t ≠ Pc.rWalk dt cur ret pend := by
+  have h := hr.inv
+  obtain ⟨hc, _, hwk, hnw⟩ := h.chain_facts hh
+  obtain ⟨l1, l2, l3⟩ := Chain.c02_chain_shape c (abs c s) hr.abs _ (absSlot_chain c s hh)
+  refine ⟨_, hc, l1, l2, ?_, hnw⟩
+  intro x hx
+  obtain ⟨a1, a2, a3⟩ := l3 x hx
+  refine ⟨a1, a2, h.str.alive x (hwk x), ?_⟩
+  rw [abs_pc] at a3
+  split at a3
+  · rename_i hk; rw [if_pos hk]
+    cases hp : s.pc x <;> rw [hp] at a3 <;> simp [absPc] at a3 ⊢
+  · rename_i hk; rw [if_neg hk]
+    cases hp : s.pc x <;> rw [hp] at a3 <;> simp [absPc] at a3 ⊢
+
+example : Chain.WF c02Cfg ∧ (∀ t, t < c02Cfg.n → (prun c02Cfg (init c02Cfg) c02Sched).pc t = Pc.done)
+    ∧ (List.range 6).map (prun c02Cfg (init c02Cfg) c02Sched).observed = [0, 1, 1, 1, 1, 0]
+    ∧ (List.range 6).map (prun c02Cfg (init c02Cfg) c02Sched).woken = [0, 1, 1, 1, 0, 0] := by decide
+example : (prun c02Cfg (init c02Cfg) (c02Sched.take 9)).head ≠ Seen.ready
+    ∧ (List.range 6).map (prun c02Cfg (init c02Cfg) (c02Sched.take 9)).subscribed = [false, true, true, true, false, false]
+    ∧ (prun c02Cfg (init c02Cfg) (c02Sched.take 9)).pc 2 = Pc.wBlocked := by decide
+
+end Cocls.ChainPtr
